@@ -190,6 +190,10 @@ pub enum Op {
     AddResource {
         id: String,
         text: String,
+        /// the resource is built by hand (`TextResource::new(..).with_string(first).with_string(text)`, then
+        /// `store.insert`) and held this other text first: everything derived from the first text must be gone
+        #[serde(default)]
+        replaced: Option<String>,
     },
     AddDataset {
         id: String,
